@@ -313,7 +313,7 @@ def case_deadline_s():
     v = os.environ.get('PYVC_CASE_DEADLINE_S')
     if v:
         return float(v)
-    return 2400.0 if os.environ.get('VERIF_TIER') == 'thorough' else 900.0
+    return 1500.0 if os.environ.get('VERIF_TIER') == 'thorough' else 420.0
 
 
 def _timed_out_result(job, seconds):
@@ -435,7 +435,7 @@ def run_jobs(jobs, nproc=None):
     if redo and os.environ.get('PYVC_NO_RETRY') != '1':
         print(f'retrying {len(redo)} case(s) whose only problem was an undecided obligation: '
               f'{[results[i]["label"] for i in redo][:6]}', file=sys.stderr, flush=True)
-        again = supervised_map(_worker_retry, [jobs[i] for i in redo], min(4, len(redo)), 2 * case_deadline_s())
+        again = supervised_map(_worker_retry, [jobs[i] for i in redo], min(4, len(redo)), case_deadline_s())
         for i, r in zip(redo, again):
             r['retried'] = True
             results[i] = r
